@@ -8,7 +8,7 @@ which checks catch which change.
 import json, os, shutil, subprocess, sys, tempfile
 from pathlib import Path
 
-V = Path('/verif'); S = V / 'seeded'
+V = Path(__file__).resolve().parent.parent; S = V / 'seeded'
 ALL = [f'C{i:02d}' for i in range(1, 21)]
 
 def sh(cmd, **kw):
